@@ -4,7 +4,7 @@ import numpy as np
 from common import *
 
 ID = "C07"
-THEOREM_FILES = ["Summer.Props.C07", "Summer.Props.C12Grid", "Summer.Props.C07Source", "Summer.Props.C07Convergence", "Summer.Props.C07Pipeline"]
+THEOREM_FILES = ["Summer.Props.C07", "Summer.Props.C12Grid", "Summer.Props.C07Source", "Summer.Props.C07Convergence", "Summer.Props.C07Pipeline", "Summer.Props.C07EndToEnd"]
 TASK = "task"
 RULE = ("(a) generated programs with non-unit / non-integer start, end and timestep: euler and rk4 trajectories vs the model's classical "
         "recurrences (IEEE double, 1e-9), adaptive solver vs the model's Dormand-Prince (20*(atol+rtol*|y|)); (b) closed forms on the real code: "
